@@ -48,7 +48,8 @@ TruthsH == {[tsmap |-> tm, css |-> cs, regions |-> rg, cues |-> <<[SimpleCue(0, 
 TruthsHOK == {t \in TruthsH : t.cues[1].region = 0 \/ \E i \in DOMAIN t.regions : t.regions[i].id = t.cues[1].region}
 
 TruthsC == {[BaseG EXCEPT !.cues = <<[s |-> tp[1], e |-> tp[2], id |-> id, notes |-> nt, set |-> st, region |-> 0, lines |-> ls]>>] :
-              tp \in {<<0, 1500>>, <<3599999, 3723004>>}, id \in {0, 7}, nt \in {<<>>, <<1>>, <<1, 2>>}, st \in Sets,
+              \* (the last time pair lies beyond 24 h)
+              tp \in {<<0, 1500>>, <<3599999, 3723004>>, <<90610123, 93600500>>}, id \in {0, 7}, nt \in {<<>>, <<1>>, <<1, 2>>}, st \in Sets,
               ls \in {<<Line1(v, rs)>> : v \in {0, 1}, rs \in RunSeqs(Stacks)}
                      \cup {<<Line1(v, <<Run1(1, s1, 0)>>), Line1(0, <<Run1(2, s2, 0)>>)>> : v \in {0, 1}, s1 \in StacksSmall, s2 \in StacksSmall}}
 
